@@ -5,23 +5,53 @@ import (
 	"unsafe"
 )
 
-// Channel operations. vinstr rewrites
+// Channel operations under the scheduler. vinstr rewrites
 //
-//	select { case <-a: A; case <-b: B }            ->  switch vrt.Select(false, a, b) { case 0: A; case 1: B }
-//	select { case <-a: A; default: D }             ->  switch vrt.Select(true, a) { case 0: A; default: D }
-//	<-c (statement)                                ->  vrt.Recv(c)
-//	close(c)                                       ->  vrt.Close(c)
+//	ch <- v                         ->  vrt.Send(ch, v)
+//	<-ch (statement)                ->  vrt.Recv(ch)
+//	x := <-ch / x, ok := <-ch / f(<-ch)  ->  vrt.RecvT(ch) / vrt.RecvOk(ch)
+//	close(ch)                       ->  vrt.Close(ch)
+//	select { ... }                  ->  switch vrt.SelectG(hasDefault, vrt.RecvCase(c0), vrt.SendCase(c1, v1)) { case 0: x := vrt.SelVal(c0) ... }
+//	(receive-only selects that discard the value use the shorter vrt.Select(hasDefault, chans...))
 //
-// Readiness is polled without consuming for closed channels and buffered channels;
-// a value taken from an unbuffered channel while polling (a sender outside the task
-// world) is stashed and handed to the next receive on that channel.
+// Model. A buffered channel keeps using its real buffer through non-blocking reflective
+// operations. An unbuffered channel is a rendezvous the scheduler pairs: a blocked send
+// is enabled iff some other task is blocked in a receive on the same channel (and vice
+// versa); whichever of the two is scheduled first completes the operation of both.
+// A channel written or closed from outside the task world (a timer, the context package)
+// is observed by polling; a value taken from it while polling is stashed for the next
+// receive. Race-detector edges of the real primitive are re-created on the channel's
+// address (send -> receive, and for unbuffered channels receive -> send completion).
+
+type chanCase struct {
+	send bool
+	ch   reflect.Value
+	val  reflect.Value
+}
+
+// pendingOp is the blocking channel operation a task has announced.
+type pendingOp struct {
+	cases   []chanCase
+	done    bool // completed by the counterpart
+	idx     int
+	recv    reflect.Value
+	recvOk  bool
+	hasDflt bool
+}
 
 type stashEntry struct {
-	ch unsafe.Pointer
-	n  int
+	ch   unsafe.Pointer
+	vals []reflect.Value
 }
 
 var stash []stashEntry
+var closedChans []unsafe.Pointer
+
+//go:norace
+func resetChanState() {
+	stash = stash[:0]
+	closedChans = closedChans[:0]
+}
 
 //go:norace
 func stashGet(p unsafe.Pointer) *stashEntry {
@@ -34,15 +64,31 @@ func stashGet(p unsafe.Pointer) *stashEntry {
 }
 
 //go:norace
-func chanReady(v reflect.Value) bool {
+func isClosedKnown(p unsafe.Pointer) bool {
+	for _, c := range closedChans {
+		if c == p {
+			return true
+		}
+	}
+	return false
+}
+
+// pollRecv reports whether a receive on v can complete now without a controlled
+// counterpart: buffered data, a closed channel, or a value from outside (stashed).
+//
+//go:norace
+func pollRecv(v reflect.Value) bool {
 	if !v.IsValid() || v.IsNil() {
 		return false
 	}
 	p := v.UnsafePointer()
-	if s := stashGet(p); s != nil && s.n > 0 {
+	if s := stashGet(p); s != nil && len(s.vals) > 0 {
 		return true
 	}
 	if v.Len() > 0 {
+		return true
+	}
+	if isClosedKnown(p) {
 		return true
 	}
 	RaceDisable()
@@ -52,112 +98,337 @@ func chanReady(v reflect.Value) bool {
 		return false // would block
 	}
 	if !ok {
+		closedChans = append(closedChans, p)
 		return true // closed
 	}
-	// consumed a real value: remember it
 	if s := stashGet(p); s != nil {
-		s.n++
+		s.vals = append(s.vals, x)
 	} else {
-		stash = append(stash, stashEntry{p, 1})
+		stash = append(stash, stashEntry{p, []reflect.Value{x}})
 	}
 	return true
 }
 
-// consume performs the receive that chanReady promised.
+// takeRecv performs the receive pollRecv promised.
 //
 //go:norace
-func chanConsume(v reflect.Value) {
+func takeRecv(v reflect.Value) (reflect.Value, bool) {
 	p := v.UnsafePointer()
-	if s := stashGet(p); s != nil && s.n > 0 {
-		s.n--
-		return
+	if s := stashGet(p); s != nil && len(s.vals) > 0 {
+		x := s.vals[0]
+		s.vals = s.vals[1:]
+		return x, true
 	}
-	v.TryRecv()
-}
-
-type chanWait struct {
-	chans      []reflect.Value
-	hasDefault bool
+	x, ok := v.TryRecv()
+	if !x.IsValid() {
+		return reflect.Zero(v.Type().Elem()), false
+	}
+	return x, ok
 }
 
 //go:norace
-func (w *chanWait) VrtReady(kind OpKind, t *Task) bool {
-	if w.hasDefault {
+func (e *Exec) counterpart(self *Task, c chanCase) (*Task, int) {
+	if c.ch.Cap() != 0 {
+		return nil, -1
+	}
+	p := c.ch.UnsafePointer()
+	for i := 0; i < e.ntasks; i++ {
+		u := e.tasks[i]
+		if u == self || u.done || u.pend == nil || u.pend.done || u.pend.hasDflt {
+			continue
+		}
+		for k, uc := range u.pend.cases {
+			if uc.send != c.send && uc.ch.IsValid() && !uc.ch.IsNil() && uc.ch.UnsafePointer() == p {
+				return u, k
+			}
+		}
+	}
+	return nil, -1
+}
+
+// caseReady: can case c of task t complete now?
+//
+//go:norace
+func (e *Exec) caseReady(t *Task, c chanCase) bool {
+	if !c.ch.IsValid() || c.ch.IsNil() {
+		return false
+	}
+	if c.send {
+		if isClosedKnown(c.ch.UnsafePointer()) {
+			return true // will panic, as in Go
+		}
+		if c.ch.Cap() > 0 {
+			return c.ch.Len() < c.ch.Cap()
+		}
+		u, _ := e.counterpart(t, c)
+		return u != nil
+	}
+	if pollRecv(c.ch) {
 		return true
 	}
-	for _, c := range w.chans {
-		if chanReady(c) {
+	u, _ := e.counterpart(t, c)
+	return u != nil
+}
+
+//go:norace
+func (p *pendingOp) VrtReady(kind OpKind, t *Task) bool {
+	if p.done || p.hasDflt {
+		return true
+	}
+	e := cur
+	for _, c := range p.cases {
+		if e.caseReady(t, c) {
 			return true
 		}
 	}
 	return false
 }
 
-// Select is a receive-only select over chans whose received values are discarded.
-// It returns the index of the case taken, or -1 for the default case.
+// doChanOp runs a (possibly multi-case) channel operation of the running task and
+// returns the index of the case taken (-1 = default), the received value and ok.
 //
 //go:norace
-func Select(hasDefault bool, chans ...any) int {
-	vals := make([]reflect.Value, len(chans))
-	for i, c := range chans {
-		vals[i] = reflect.ValueOf(c)
-	}
+func doChanOp(kind OpKind, hasDefault bool, cases []chanCase) (int, reflect.Value, bool) {
 	e := cur
 	if e == nil || e.aborted {
-		cases := make([]reflect.SelectCase, 0, len(vals)+1)
-		for _, v := range vals {
-			cases = append(cases, reflect.SelectCase{Dir: reflect.SelectRecv, Chan: v})
-		}
-		if hasDefault || (e != nil && e.aborted) {
-			cases = append(cases, reflect.SelectCase{Dir: reflect.SelectDefault})
-		}
-		i, _, _ := reflect.Select(cases)
-		if i == len(vals) {
-			return -1
-		}
-		return i
+		return freeChanOp(e != nil, hasDefault, cases)
 	}
-	w := &chanWait{chans: vals, hasDefault: hasDefault}
-	if !e.Sched(OpSelect, w, nil) {
-		return -1
+	t := e.running
+	p := &pendingOp{cases: cases, hasDflt: hasDefault}
+	t.pend = p
+	for _, c := range cases {
+		if c.send && c.ch.IsValid() && !c.ch.IsNil() {
+			RaceRelease(c.ch.UnsafePointer())
+		}
 	}
-	var ready [16]int
+	var addr unsafe.Pointer
+	if len(cases) == 1 && cases[0].ch.IsValid() && !cases[0].ch.IsNil() {
+		addr = cases[0].ch.UnsafePointer()
+	}
+	if !e.Sched(kind, p, addr) {
+		t.pend = nil
+		return -1, reflect.Value{}, false
+	}
+	t.pend = nil
+	if p.done {
+		c := cases[p.idx]
+		if c.send {
+			RaceAcquire(unsafe.Add(c.ch.UnsafePointer(), 1))
+			return p.idx, reflect.Value{}, false
+		}
+		RaceAcquire(c.ch.UnsafePointer())
+		return p.idx, p.recv, p.recvOk
+	}
+	var ready [32]int
 	n := 0
-	for i, v := range vals {
-		if n < len(ready) && chanReady(v) {
+	for i, c := range cases {
+		if n < len(ready) && e.caseReady(t, c) {
 			ready[n] = i
 			n++
 		}
 	}
 	if n == 0 {
-		return -1
+		return -1, reflect.Value{}, false // default
 	}
-	c := 0
+	k := 0
 	if n > 1 {
-		c = Choose(n)
+		k = Choose(n)
 	}
-	chanConsume(vals[ready[c]])
-	return ready[c]
+	i := ready[k]
+	c := cases[i]
+	ptr := c.ch.UnsafePointer()
+	if c.send {
+		if isClosedKnown(ptr) {
+			panic("send on closed channel")
+		}
+		if c.ch.Cap() > 0 {
+			if !c.ch.TrySend(c.val) {
+				panic("vrt: buffered send that was ready did not complete")
+			}
+			return i, reflect.Value{}, false
+		}
+		u, uk := e.counterpart(t, c)
+		u.pend.done, u.pend.idx, u.pend.recv, u.pend.recvOk = true, uk, c.val, true
+		RaceAcquire(unsafe.Add(ptr, 1))
+		return i, reflect.Value{}, false
+	}
+	if pollRecv(c.ch) {
+		x, ok := takeRecv(c.ch)
+		return i, x, ok
+	}
+	u, uk := e.counterpart(t, c)
+	x := u.pend.cases[uk].val
+	u.pend.done, u.pend.idx = true, uk
+	RaceAcquire(ptr)
+	RaceRelease(unsafe.Add(ptr, 1))
+	return i, x, true
+}
+
+// freeChanOp is the uncontrolled fallback (no execution active, or tearing down).
+//
+//go:norace
+func freeChanOp(aborting, hasDefault bool, cases []chanCase) (int, reflect.Value, bool) {
+	sc := make([]reflect.SelectCase, 0, len(cases)+1)
+	for _, c := range cases {
+		if c.send {
+			sc = append(sc, reflect.SelectCase{Dir: reflect.SelectSend, Chan: c.ch, Send: c.val})
+		} else {
+			sc = append(sc, reflect.SelectCase{Dir: reflect.SelectRecv, Chan: c.ch})
+		}
+	}
+	if hasDefault || aborting {
+		sc = append(sc, reflect.SelectCase{Dir: reflect.SelectDefault})
+	}
+	i, x, ok := reflect.Select(sc)
+	if i == len(cases) {
+		return -1, reflect.Value{}, false
+	}
+	return i, x, ok
+}
+
+// Case is one case of SelectG.
+type Case struct{ c chanCase }
+
+// RecvCase / SendCase build the cases of a general select.
+//
+//go:norace
+func RecvCase(ch any) Case { return Case{chanCase{ch: reflect.ValueOf(ch)}} }
+
+//go:norace
+func SendCase(ch any, v any) Case {
+	cv := reflect.ValueOf(ch)
+	var vv reflect.Value
+	if cv.IsValid() && !cv.IsNil() {
+		et := cv.Type().Elem()
+		if v == nil {
+			vv = reflect.Zero(et)
+		} else {
+			vv = reflect.ValueOf(v)
+			if vv.Type() != et && vv.Type().ConvertibleTo(et) {
+				vv = vv.Convert(et)
+			}
+		}
+	}
+	return Case{chanCase{send: true, ch: cv, val: vv}}
+}
+
+// SelectG is a general select; it returns the index of the case taken or -1 for default.
+// The received value of a receive case is fetched with SelVal / SelOk.
+//
+//go:norace
+func SelectG(hasDefault bool, cases ...Case) int {
+	cc := make([]chanCase, len(cases))
+	for i, c := range cases {
+		cc[i] = c.c
+	}
+	i, x, ok := doChanOp(OpSelect, hasDefault, cc)
+	if t := runningTask(); t != nil {
+		t.selVal, t.selOk = x, ok
+	} else {
+		freeSelVal, freeSelOk = x, ok
+	}
+	return i
+}
+
+var freeSelVal reflect.Value
+var freeSelOk bool
+
+//go:norace
+func runningTask() *Task {
+	if e := cur; e != nil {
+		return e.running
+	}
+	return nil
+}
+
+// SelVal returns the value received by the calling task's last SelectG, typed by ch.
+//
+//go:norace
+func SelVal[T any](ch <-chan T) T {
+	x := freeSelVal
+	if t := runningTask(); t != nil {
+		x = t.selVal
+	}
+	var zero T
+	if !x.IsValid() {
+		return zero
+	}
+	v, _ := x.Interface().(T)
+	return v
+}
+
+// SelOk is the ok result of the calling task's last SelectG receive.
+//
+//go:norace
+func SelOk() bool {
+	if t := runningTask(); t != nil {
+		return t.selOk
+	}
+	return freeSelOk
+}
+
+// Select is a receive-only select whose received values are discarded.
+//
+//go:norace
+func Select(hasDefault bool, chans ...any) int {
+	cc := make([]chanCase, len(chans))
+	for i, c := range chans {
+		cc[i] = chanCase{ch: reflect.ValueOf(c)}
+	}
+	i, _, _ := doChanOp(OpSelect, hasDefault, cc)
+	return i
 }
 
 // Recv is the statement `<-c`.
 //
 //go:norace
 func Recv(c any) {
-	v := reflect.ValueOf(c)
-	e := cur
-	if e == nil || e.aborted {
-		if e != nil {
-			return
-		}
-		v.Recv()
-		return
+	doChanOp(OpRecv, false, []chanCase{{ch: reflect.ValueOf(c)}})
+}
+
+// RecvT is the expression `<-c`.
+//
+//go:norace
+func RecvT[T any](c <-chan T) T {
+	v, _ := RecvOk(c)
+	return v
+}
+
+// RecvOk is `v, ok := <-c`.
+//
+//go:norace
+func RecvOk[T any](c <-chan T) (T, bool) {
+	var zero T
+	_, x, ok := doChanOp(OpRecv, false, []chanCase{{ch: reflect.ValueOf(c)}})
+	if !x.IsValid() {
+		return zero, ok
 	}
-	w := &chanWait{chans: []reflect.Value{v}}
-	if !e.Sched(OpRecv, w, v.UnsafePointer()) {
-		return
+	v, _ := x.Interface().(T)
+	return v, ok
+}
+
+// RecvChan performs the controlled receive of `<-c` and returns a channel from which the
+// real receive operator then takes the same (value, ok) without blocking: vinstr rewrites
+// a receive in expression position `<-c` to `<-vrt.RecvChan(c)`, whatever the context
+// (assignment, argument, `v, ok :=`).
+//
+//go:norace
+func RecvChan[T any](c <-chan T) <-chan T {
+	v, ok := RecvOk(c)
+	r := make(chan T, 1)
+	if ok {
+		r <- v
+	} else {
+		close(r)
 	}
-	chanConsume(v)
+	return r
+}
+
+// Send is the statement `c <- v`.
+//
+//go:norace
+func Send[T any](c chan<- T, v T) {
+	doChanOp(OpSend, false, []chanCase{{send: true, ch: reflect.ValueOf(c), val: reflect.ValueOf(&v).Elem()}})
 }
 
 // Close is close(c).
@@ -166,10 +437,11 @@ func Recv(c any) {
 func Close(c any) {
 	v := reflect.ValueOf(c)
 	e := cur
-	if e != nil {
+	if e != nil && !e.aborted {
 		if !e.Sched(OpClose, nil, v.UnsafePointer()) {
 			return
 		}
+		closedChans = append(closedChans, v.UnsafePointer())
 	}
 	v.Close()
 }
